@@ -128,6 +128,7 @@ type world struct {
 	prepKey   map[int]string    // PREPARE number -> key label (history lock)
 	lastX     map[int][][]byte  // call -> the ids of its last EXECUTE / BATCH frame (history lock)
 	silent    map[string]int    // key label -> the one PREPARE of that key that was never answered (history lock)
+	spurious  bool              // a call returned the driver's timeout error without a silent PREPARE of its statements
 	timeout   time.Duration     // the Session's request timeout, if the world has a short one (silent PREPAREs allowed)
 	onPrepare func(n *nodeState, stmt int, serial int) (pfate, chan struct{})
 	onExec    func(n *nodeState, call int, known bool) (xfate, chan struct{}, bool)
@@ -695,6 +696,9 @@ func (w *world) classify(c *callSpec, err error) string {
 		if n, ok := w.failedPrepareSerial(err.Error(), keys); ok {
 			return fmt.Sprintf("pe/%d", n)
 		}
+		if silentRe.MatchString(err.Error()) && w.timeout > 0 {
+			w.spurious = true
+		}
 	}
 	return classify(err)
 }
@@ -1071,6 +1075,10 @@ func (rn *runner) emit(w *world, wg *sync.WaitGroup, class string) bool {
 	rn.seq++
 	wg = w.probes(wg)
 	op, hung := w.finish(wg, rn.outdir, fmt.Sprintf("%d", rn.seq))
+	if w.spurious && hung == "" {
+		rn.out.Dist["conc/not-judged(harness-stalled-beyond-the-short-request-timeout)"]++
+		return true
+	}
 	cls := "conc/" + class
 	if hung != "" {
 		rn.nhang++
@@ -1521,6 +1529,98 @@ func (rn *runner) lostStatement(k int, reprepareFails bool, batch bool) {
 		kind = "batch"
 	}
 	rn.emit(w, &wg, fmt.Sprintf("lost-statement/%s/k%d/fails=%v", kind, k, reprepareFails))
+}
+
+// silentTimeout: the request timeout of the Sessions in which one PREPARE per key is never answered. Every other
+// frame of such a world is answered at once, so nothing else comes near it; should a call nevertheless return the
+// timeout error without an unanswered PREPARE of its statements (the harness itself stalled), the run is not judged.
+const silentTimeout = 2500 * time.Millisecond
+
+type startedRun struct {
+	w     *world
+	wg    *sync.WaitGroup
+	class string
+}
+
+// prepareFails: the PREPARE of a cold statement (role 0), or the re-PREPARE after the server lost a cached
+// statement (role 1: the executions are answered UNPREPARED first), fails in one of the four ways prepareStatement
+// can fail (meta.go) while 2..4 executions - queries, or batches with another statement first - are waiting for
+// it (the answer is held until they have started; a silent PREPARE is never answered: the driver's timeout ends
+// the flight's Conn.exec). All of them get that failure, none of them before the entry has left the cache; the
+// probes afterwards find the statement uncached, prepare it again and execute.
+// The run is started here and judged by emit (for the silent kind: at the end of the tier, after the timeout).
+func (rn *runner) startPrepareFails(kind, role int, batch bool) *startedRun {
+	r := rn.r
+	c := worldCfg{nhosts: 1, nconns: 1 + r.Intn(2), capacity: []int{1000, 0, 2}[r.Intn(3)], stmts: mkStmts(2, r), stableID: r.Bool()}
+	if kind == pfSilent {
+		c.timeout = silentTimeout
+	}
+	w, err := newWorld(r, c)
+	if err != nil {
+		rn.out.Case("trace Z:no-session", "accept", "conc/no-session", true)
+		return nil
+	}
+	for j := range w.stmts {
+		if batch && w.stmts[j].ncols == 0 {
+			w.stmts[j].ncols = 1 // batches prepare only entries with values; the server's metadata is what counts
+		}
+	}
+	spec := func() *callSpec {
+		if batch {
+			return &callSpec{batch: true, host: 0, entries: []entrySpec{{stmt: 1, nvals: w.stmts[1].ncols}, {stmt: 0, nvals: w.stmts[0].ncols}}}
+		}
+		return &callSpec{host: 0, entries: []entrySpec{{stmt: 0, nvals: w.stmts[0].ncols}}}
+	}
+	k := 2 + r.Intn(3)
+	armed := role == 0
+	failed := false
+	gate := make(chan struct{})
+	w.onPrepare = func(n *nodeState, stmt, serial int) (pfate, chan struct{}) {
+		if stmt == 0 && armed && !failed {
+			failed = true
+			return pfate{fail: true, kind: kind}, gate
+		}
+		return pfate{}, nil
+	}
+	if role == 1 {
+		// the statement is prepared and executed once, then the server loses everything
+		w.doCall(spec())
+		w.h.mu.Lock()
+		w.nodes[0].registered = map[string]int{}
+		w.nforget++
+		armed = true
+		w.h.mu.Unlock()
+	}
+	first := w.h.ncalls
+	wg := &sync.WaitGroup{}
+	for i := 0; i < k; i++ {
+		wg.Add(1)
+		go func() { defer wg.Done(); w.doCall(spec()) }()
+	}
+	go func() {
+		w.waitHist(func(evs []hev) bool {
+			n := 0
+			for _, e := range evs {
+				if strings.HasPrefix(e.text, "S:") {
+					n++
+				}
+			}
+			return n >= first+k
+		})
+		time.Sleep(15 * time.Millisecond) // schedule only: let them reach the flight
+		close(gate)
+	}()
+	kindw := "query"
+	if batch {
+		kindw = "batch"
+	}
+	return &startedRun{w: w, wg: wg, class: fmt.Sprintf("prepare-fails/%s/%s/%s", pfWords[kind], []string{"cold", "after-loss"}[role], kindw)}
+}
+
+func (rn *runner) prepareFails(kind, role int, batch bool) {
+	if sr := rn.startPrepareFails(kind, role, batch); sr != nil {
+		rn.emit(sr.w, sr.wg, sr.class)
+	}
 }
 
 func imax(a, b int) int {
@@ -1974,6 +2074,26 @@ func sessionTier(r *vh.Rng, out *vh.Out, outdir string, mult int) {
 		maxHangs = 2
 	}
 	steps := []func(){}
+	// the runs with a PREPARE that is never answered: started now, judged at the end (the driver's timeout has to pass)
+	var silentRuns []*startedRun
+	for i := 0; i < mult; i++ {
+		for role := 0; role < 2; role++ {
+			for _, batch := range []bool{false, true} {
+				if sr := rn.startPrepareFails(pfSilent, role, batch); sr != nil {
+					silentRuns = append(silentRuns, sr)
+				}
+			}
+		}
+	}
+	for i := 0; i < mult; i++ {
+		for kind := pfFrame; kind < pfSilent; kind++ {
+			for role := 0; role < 2; role++ {
+				kind, role := kind, role
+				steps = append(steps, func() { rn.prepareFails(kind, role, false) })
+				steps = append(steps, func() { rn.prepareFails(kind, role, true) })
+			}
+		}
+	}
 	for i := 0; i < 12*mult; i++ {
 		steps = append(steps, rn.nearCollide)
 	}
@@ -2013,5 +2133,12 @@ func sessionTier(r *vh.Rng, out *vh.Out, outdir string, mult int) {
 			continue
 		}
 		f()
+	}
+	for _, sr := range silentRuns {
+		if rn.nhang >= maxHangs {
+			out.Dist["conc/skipped-after-hang"]++
+			continue
+		}
+		rn.emit(sr.w, sr.wg, sr.class)
 	}
 }
